@@ -1,0 +1,24 @@
+//go:build verif
+
+// Contracts for package singleflight, checked by /verif (ssovc). Comment-only file.
+package singleflight
+
+// $runs: ghost counter — how many times this group has run a caller-supplied function.
+//@ type Group
+//@   ghost field $runs int
+//@   guarded_by m : mu
+
+// joined: at this call's first lock acquisition another execution for the key was registered.
+// C: that execution's record (follower); N: the record this call registers (leader).
+//@ func (g *Group) Do(key string, fn func() (interface{}, error)) (v interface{}, count int, err error)
+//@   modifies everything
+//@   let joined = at(@Lock#1, g.m != nil && (key in g.m))
+//@   let C = at(@Lock#1, g.m[key])
+//@   preserves fn: g.$runs
+//@   ghostat fn#1: g.$runs = g.$runs + 1
+//@   sink [C16] only_the_leader_executes: fn requires !joined && at(@Unlock#2, (key in g.m)) && g.$runs == old(g.$runs)
+//@   ensures [C16] follower_does_not_execute: joined ==> !called(@fn#1) && g.$runs == old(g.$runs) && called(@Wait#1) && count == 0
+//@   ensures [C16] follower_gets_that_executions_result: joined ==> v == C.val && err == C.err && at(@Unlock#1, C.dups) == at(@Lock#1, C.dups) + 1
+//@   ensures [C16] leader_executes_once: !joined ==> called(@fn#1) && g.$runs == old(g.$runs) + 1 && v == @fn#1.0 && err == @fn#1.1
+//@   ensures [C16] leader_is_told_how_many_joined: !joined ==> count == at(@Unlock#2, g.m[key]).dups && called(@Done#1)
+//@   ensures [C16] next_call_executes_afresh: !joined ==> called(@Lock#2) && at(@Unlock#3, !(key in g.m))
